@@ -145,6 +145,14 @@ CLAIMED = {
          "subsetting corpus fonts and generated feature programs (random lookup graphs, contextual calls, stages, variable kerning, "
          "multi-VarData HVAR) and comparing every text over the request, outlines and advances at several locations through HarfBuzz (testing).",
          "Rocq proof of closure/subset/remap preservation over a model tied by differential correspondence + HarfBuzz subset sweeps"),
+ "C08": ("The instancing arithmetic (normalizeValue, renormalizeValue with user-space distances, supportScalar, _solve/rebaseTent, "
+         "piecewiseLinearMap) is C09's Gallina model, tied to the code by exact differential runs. Theorem: for every restricted range with "
+         "moved default on an axis with unequal user-space distances, the new normalised coordinate of any retained point equals what "
+         "normalising its user-space position against the new (minimum, default, maximum) gives -- user coordinates keep their meaning. "
+         "Table-level instancing (gvar, HVAR, MVAR, GPOS/GDEF, avar, fvar, CFF2) is checked on the implementation: generated variable fonts "
+         "(asymmetric axes, intermediate masters, avar, HVAR, variable kerning) and corpus fonts under random pins, ranges and moved "
+         "defaults, compared through HarfBuzz at the same user-space locations within the rounding budget (testing).",
+         "Rocq proof of user-space meaning of renormalisation over the C09 model tied by differential correspondence + HarfBuzz instancing sweeps"),
 }
 
 def main():
